@@ -351,6 +351,59 @@ func runC17Word(t *fsTarget, cfg explore.Config, keys map[string][]byte, word []
 	return trace
 }
 
+// c17Giant: one fixed program with a 130 MiB value (far beyond any plausible initial mapping window below the
+// real one, and more than a doubling of the file): put, read back, restart, read back - on all four file systems.
+func c17Giant(c *explore.Ctx, scratch string, keys map[string][]byte) *explore.Violation {
+	giant := make([]byte, 130<<20)
+	for i := 0; i < len(giant); i += 4099 {
+		giant[i] = byte(i >> 12)
+	}
+	run := func(kind string, n int) (tr []string) {
+		defer func() {
+			if r := recover(); r != nil {
+				tr = append(tr, fmt.Sprintf("PANIC: %v", r))
+			}
+		}()
+		debug.SetPanicOnFault(true)
+		t := newTarget(kind, scratch, n)
+		defer t.cleanup()
+		explore.PinSeed(0)
+		db, err := pogreb.Open(t.dir, explore.BIGC.Options(t.fsys))
+		if err != nil {
+			return []string{"Open: ERR"}
+		}
+		obs := func(when string) {
+			v, err := db.Get(keys["b"])
+			s, _ := db.Get(keys["a"])
+			tr = append(tr, fmt.Sprintf("%s: giant value %d bytes %x err=%v; small value %q; Count=%d", when, len(v), sha256.Sum256(v), err != nil, s, db.Count()))
+		}
+		_ = db.Put(keys["a"], []byte("small"))
+		tr = append(tr, fmt.Sprint("Put(giant) error=", db.Put(keys["b"], giant) != nil))
+		obs("after the Put")
+		_ = db.Put(keys["a"], []byte("small2"))
+		obs("after one more Put")
+		if err := db.Close(); err != nil {
+			return append(tr, "Close: ERR")
+		}
+		db, err = pogreb.Open(t.dir, explore.BIGC.Options(t.fsys))
+		if err != nil {
+			return append(tr, "reopen: ERR")
+		}
+		obs("after a restart")
+		_ = db.Close()
+		return tr
+	}
+	ref := run("sim", 1)
+	for i, kind := range []string{"mem", "os", "osmmap"} {
+		c.Add("executions", 1)
+		if d := firstDiff(ref, run(kind, 2+i)); d != "" {
+			return &explore.Violation{Key: "giant-value fs=" + kind, What: "program [Put(a), Put(b, 130 MiB), Put(a), Reopen] behaves differently on fs=" + kind + " than on simfs: " + d, Size: 1,
+				Replay: map[string]interface{}{"kind": "giant17", "fs": kind, "observed": d}}
+		}
+	}
+	return nil
+}
+
 func runC17(c *explore.Ctx) {
 	scratch, err := os.MkdirTemp("/dev/shm", "pogverif-c17-")
 	if err != nil {
@@ -362,6 +415,12 @@ func runC17(c *explore.Ctx) {
 		c.HarnessError("%v", err)
 	}
 	keys := base.Keys
+	if c.Mine() {
+		if v := c17Giant(c, scratch, keys); v != nil {
+			c.Violation(*v)
+			return
+		}
+	}
 	depth := 3
 	if c.Thorough() {
 		depth = 4
@@ -493,7 +552,7 @@ func init() {
 		Prop:  "C17",
 		Level: "model_checking",
 		Rule: "every program of length d over {Put(a),Put(b),Delete(a),Compact,Reopen,Backup,TornReopen x3 (3 bytes of a record / a record with a bad CRC / 600 zero bytes appended to the newest segment through the file system under test, lock file re-created),BigPut (70000-byte value: the file and its mapping grow in one step)} under BIGC, ROLL and a 150 KB-segment configuration is executed on simfs, fs.Mem, fs.OS and fs.OSMMap; " +
-			"after every step Get/Has of three keys, Count, a full scan, FileSize and Sync are called; error-or-nil and all returned bytes, and names/lengths/SHA-256 of the segment files (and of the backup's) after every Close, Open and at the end must be identical on all four file systems; states = distinct observation traces",
+			"after every step Get/Has of three keys, Count, a full scan, FileSize and Sync are called; error-or-nil and all returned bytes, and names/lengths/SHA-256 of the segment files (and of the backup's) after every Close, Open and at the end must be identical on all four file systems; states = distinct observation traces; plus one fixed program with a 130 MiB value (put, read back, one more Put, restart, read back) on all four",
 		Assumptions:   []string{"error texts are not compared (only error-or-nil)", "a mismatch involving fs.Mem is re-run 4x and reported only if it persists (Go map iteration order in fs.Mem's ReadDir)", "hash seed pinned so that index shapes are identical"},
 		QuickBudget:   100 * time.Second,
 		ThorBudget:    25 * time.Minute,
